@@ -196,14 +196,16 @@ theorem generate_labels_fresh (m : LMap) (a : GenArgs) (r : Rev) (h : generateRe
     · rename_i hid
       split at h
       · rename_i hfree
-        simp only [Except.ok.injEq] at h
-        subst h
-        obtain ⟨hn, hf⟩ := labelsFree_spec _ _ hfree
-        refine ⟨rfl, rfl, not_mem_keysOf m _ hid, hn, ?_⟩
-        intro l hl
-        have := hf l hl
-        simp only [List.mem_cons, not_or] at this
-        exact ⟨not_mem_keysOf m l this.2, this.1⟩
+        split at h
+        · simp only [Except.ok.injEq] at h
+          subst h
+          obtain ⟨hn, hf⟩ := labelsFree_spec _ _ hfree
+          refine ⟨rfl, rfl, not_mem_keysOf m _ hid, hn, ?_⟩
+          intro l hl
+          have := hf l hl
+          simp only [List.mem_cons, not_or] at this
+          exact ⟨not_mem_keysOf m l this.2, this.1⟩
+        · simp at h
       · simp at h
 
 /-- `generate_revision` raises nothing but the error classes of its checks: when the other
@@ -216,8 +218,25 @@ theorem generate_error_kind (m : LMap) (a : GenArgs) (x : List Id × List String
   split at hg
   · simp only [Except.error.injEq] at hg; exact hg.symm
   · split at hg
-    · simp at hg
+    · split at hg
+      · simp at hg
+      · simp only [Except.error.injEq] at hg; exact hg.symm
     · simp only [Except.error.injEq] at hg; exact hg.symm
+
+/-- **A text the output encoding cannot represent is refused before the write**: if the arguments
+    resolve but some character handed to the template cannot be encoded, `generate_revision` raises
+    `CommandError` (and, `stepCall_refused`, no file appears and the map is untouched). -/
+theorem generate_refuses_unencodable (m : LMap) (a : GenArgs) (x : List Id × List String) (hx : resolveArgs m a = .ok x)
+    (he : a.encodable = false) : generateRevision m a = .error .commandError := by
+  cases hg : generateRevision m a with
+  | error e => rw [generate_error_kind m a x hx e hg]
+  | ok r =>
+    unfold generateRevision at hg
+    rw [hx] at hg
+    simp only [he] at hg
+    split at hg
+    · simp at hg
+    · split at hg <;> simp at hg
 
 /-- **A revision id that is already present is refused before the write**: if the other arguments
     resolve and the requested id is a key of the map (an existing revision id or branch label),
